@@ -793,6 +793,7 @@ func (g *Gen) unop(in *ssa.UnOp) {
 		g.define(in, t)
 		g.assume(g.typeFacts(g.vals[in], in.Type()))
 		g.observe(g.vals[in], in.Type())
+		g.loadClauses(in)
 		if gv, ok := in.X.(*ssa.Global); ok && gv.Pkg == g.c.pkg {
 			// a `constmap` of this package: its declared keys are present whenever it is read (the
 			// declaration is itself an obligation, constmap/<var>)
@@ -1357,6 +1358,53 @@ func (g *Gen) storeClauses(in *ssa.Store) {
 		}
 		name := fmtf("%s/store@%s#%d.%s", g.fnLabel(), key, g.callOrd["store:"+key+":"+cl.Label], cl.Label)
 		g.oblige("assert", name, t, cl.Props, cl.Text, in.Pos())
+	}
+}
+
+// loadClauses: `at load T.f setflag F expr` / `at load T.f mark F` — a path flag records that (and
+// with what value) this function read field f of a T. It lets a contract speak about the value a
+// decision was taken on, where the heap may have changed between function entry and the read.
+func (g *Gen) loadClauses(in *ssa.UnOp) {
+	if g.fc == nil || g.inlineDepth != 0 {
+		return
+	}
+	fa, ok := in.X.(*ssa.FieldAddr)
+	if !ok {
+		return
+	}
+	st := derefType(fa.X.Type())
+	su, ok := st.Underlying().(*types.Struct)
+	if !ok {
+		return
+	}
+	named, ok := types.Unalias(st).(*types.Named)
+	if !ok {
+		return
+	}
+	key := named.Obj().Name() + "." + su.Field(fa.Field).Name()
+	for _, cl := range g.fc.Clauses {
+		if (cl.Kind != "loadsetflag" && cl.Kind != "loadmark") || cl.Call != key {
+			continue
+		}
+		fk := "L:pathflag." + cl.Label
+		if _, ok := g.keySort[fk]; !ok {
+			g.errorf("%s: at load %s: undeclared pathflag %s", g.fnLabel(), key, cl.Label)
+			continue
+		}
+		g.usedAxioms[fmtf("clausehit:%p", cl)] = true
+		if cl.Kind == "loadmark" {
+			g.set(fk, "true")
+			continue
+		}
+		env := g.pointEnv(g.st, g.cur, nil)
+		env.vars["value"] = TV{g.vals[in], in.Type()}
+		env.vars["target"] = TV{g.val(fa.X), fa.X.Type()}
+		t, err := env.evalBool(cl.E)
+		if err != nil {
+			g.errorf("%s: at load %s: %v", g.fnLabel(), key, err)
+			continue
+		}
+		g.set(fk, t)
 	}
 }
 
